@@ -207,10 +207,11 @@ prop("C02",
      )
 
 prop("C06",
-     modules=["Emu2a.Props.C02"],
-     theorems=["Emu2a.C02.compile_error", "Emu2a.C02.push_error", "Emu2a.C02.push_ok", "Emu2a.C02.bols_length"],
+     modules=["Emu2a.Props.C02", "Emu2a.Props.C06"],
+     theorems=["Emu2a.C02.compile_error", "Emu2a.C02.push_error", "Emu2a.C02.push_ok", "Emu2a.C02.bols_length",
+               "Emu2a.C06.accepted_no_label_panic", "Emu2a.C06.bols_ref", "Emu2a.C06.fold_inv", "Emu2a.C06.push_inv"],
      harness="c06",
-     level_text="Lean theorems on the translator model with Rust panics as explicit outcomes: compile_error (translation fails only by `.ORG` below the current address, overflow of the 8-bit address counter, or an undefined label at substitution), push_error/push_ok (exact conditions per line); DEC with every operand shape is total (bols_encode covers it). The two remaining panic classes are genuine defects recorded as known findings (backward .ORG; image larger than 240/255 bytes); any other panic, or one of these on a program outside its class (the model predicts the class for every generated program), is reported. That an accepted program never hits the undefined-label panic (the parser's reference check covers exactly the translator's lookups, case-insensitively) is established by the harness, not yet by a theorem",
+     level_text="Lean theorems on the translator model with Rust panics as explicit outcomes: compile_error (translation fails only by `.ORG` below the current address, overflow of the 8-bit address counter, or an undefined label at substitution), push_error/push_ok (exact conditions per line); DEC with every operand shape is total (bols_encode covers it). The two remaining panic classes are genuine defects recorded as known findings (backward .ORG; image larger than 240/255 bytes); any other panic, or one of these on a program outside its class (the model predicts the class for every generated program), is reported. accepted_no_label_panic: a program that passes the parser's label validation (every referenced name has a case-insensitive definition) never reaches the translator's `expect(\"Labels must be defined\")` - bols_ref: every placeholder the translator creates for any instruction form names a label the validation looked at; fold_inv: every name the parser counts as defined enters the translator's table under the same lower-cased key and stays findable. Hence for accepted programs translation fails only in the two recorded classes",
      technique="Lean 4 panic-outcome model of the translator with exact failure characterisation + differential compile-and-load under catch_unwind on generated and directed programs, known-findings filter",
      rule="generated accepted programs (incl. backward .ORG in a fifth, oversize images in a quarter), directed: images of every size 0..300, .ORG to 14 targets from 7 positions, labels referenced in other letter cases through JR/JMP/CALL/JCS/LD/LDSP/DEC/MOV/.EQU, DEC with every operand shape; each is parsed by the real parser, compiled and loaded under catch_unwind, the panic site is classified from the panic message; `compileload` = model prediction, `spec.c06` = must be ok; distinct = distinct serialised ASTs",
      explanation="KNOWN FINDINGS (see known_findings.txt): backward .ORG, image > 240 bytes, image > 255 bytes",
